@@ -167,8 +167,87 @@ partial def storeLoop (h : IO.FS.Stream) (s : State) (now : Nat) (i : Nat) : IO 
         | _ => s'
       storeLoop h s'' now (i+1)
 
+/-! ### follow LTS driver -/
+open Xs.Follow in
+def roptsOfJson (j : Json) : ROpts :=
+  let follow := match j.getObjVal? "follow" with
+    | .ok (.str "on") => (true, false)
+    | .ok (.num _) => (true, true)
+    | _ => (false, false)
+  { follow := follow.1, heartbeat := follow.2
+    tail := (match j.getObjVal? "tail" with | .ok (.bool b) => b | _ => false)
+    last := (optStr j "last").map hexToNat
+    limit := optNat j "limit"
+    ctx := (optStr j "ctx").map hexToNat }
+
+open Xs.Follow in
+def outJ : Out → Json
+  | .frame f => Json.mkObj [("frame", .str (idToHex f.id))]
+  | .threshold => Json.mkObj [("threshold", .bool true)]
+  | .pulse => Json.mkObj [("pulse", .bool true)]
+
+open Xs.Follow in
+def followFinalJ (s : Sys) : Json :=
+  match s.reader with
+  | none => Json.mkObj [("reader", .null)]
+  | some r => Json.mkObj [
+      ("out", .arr (r.out.map outJ).toArray), ("closed", .bool r.closed), ("lagged", .bool r.lagged),
+      ("queue", .num r.queue.length), ("committed", .arr (s.committed.map (fun f => Json.str (idToHex f.id))).toArray),
+      ("bcast", .arr (s.bcast.map (fun f => Json.str (idToHex f.id))).toArray)]
+
+open Xs.Follow in
+partial def followLoop (h : IO.FS.Stream) (s : Sys) (i : Nat) : IO Unit := do
+  let line ← h.getLine
+  if line.isEmpty then return ()
+  match Json.parse line with
+  | .error e => IO.println (Json.mkObj [("i", .num i), ("parse-error", .str e)]).compress; followLoop h s (i+1)
+  | .ok j =>
+    match j.getObjVal? "case" with
+    | .ok c =>
+      IO.println (Json.mkObj [("case", c)]).compress
+      let hist := (arrOf j "history").map frameOfJson
+      let cap := (optNat j "cap").getD 1024
+      let s0 : Sys := { committed := hist, lastId := hist.foldl (fun m f => max m f.id) 0, bcast := hist, cap := cap }
+      followLoop h s0 0
+    | _ =>
+      match optStr j "act" with
+      | some "final" =>
+        IO.println (Json.mkObj [("i", .num i), ("final", followFinalJ s)]).compress
+        followLoop h s (i+1)
+      | some a =>
+        let act : Option Act := match a with
+          | "appendId" => (j.getObjVal? "frame").toOption.map (fun fj => let f := frameOfJson fj; Act.appendId f f.id)
+          | "appendCommit" => some .appendCommit
+          | "appendBroadcast" => some .appendBroadcast
+          | "appendAbort" => some .appendAbort
+          | "subscribe" => some (.subscribe (roptsOfJson ((j.getObjVal? "opts").toOption.getD .null)) (s.lastId + 1))
+          | "histSend" => some (.r .histSend)
+          | "histEnd" => some (.r .histEnd)
+          | "liveRecv" => some (.r .liveRecv)
+          | "liveEnd" => some (.r .liveEnd)
+          | "pulse" => some (.r .pulse)
+          | _ => none
+        match act with
+        | none => IO.println (Json.mkObj [("i", .num i), ("bad-act", .str a)]).compress; followLoop h s (i+1)
+        | some act =>
+          -- what the model expects the implementation to be handling at this point
+          let expect : Json := match act, s.reader with
+            | .r .histSend, some r => (match nextFrame s.committed r.opts.ctx r.cursor with
+                | some f => .str (idToHex f.id) | none => .null)
+            | .r .liveRecv, some r => (match r.queue with | f :: _ => .str (idToHex f.id) | [] => .null)
+            | _, _ => .null
+          match step s act with
+          | some s' =>
+            IO.println (Json.mkObj [("i", .num i), ("enabled", .bool true), ("expect", expect)]).compress
+            followLoop h s' (i+1)
+          | none =>
+            IO.println (Json.mkObj [("i", .num i), ("enabled", .bool false), ("expect", expect)]).compress
+            followLoop h s (i+1)
+      | none => followLoop h s (i+1)
+
 def main (args : List String) : IO UInt32 := do
   let stdin ← IO.getStdin
   match args with
   | ["store"] => storeLoop stdin State.init 0 0; return 0
+  | ["follow"] => followLoop stdin {} 0; return 0
   | _ => IO.eprintln "usage: xsdrv store"; return 2
